@@ -495,7 +495,7 @@ def run_shard(params):
         for i in range(params["count"]):
             case = resolve_stale(lib, random_history(rng), rng.choice)
             run_history(lib, case, run)
-            res["evaluations"] += 1
+            res["evaluations"] += len(case["ops"])   # every round transition is one evaluated pair of results
             run.count("random_histories")
             run.count("random_rounds", 1 + len(case["ops"]))
             if i == 5 and not res["samples"]:
